@@ -110,6 +110,7 @@ func (route *baseRoute) run() {
 
 func (route *SendAllMatch) Dispatch(buf []byte) {
 	conf := route.config.Load().(Config)
+	verifPoint("sendallmatch-after-load")
 
 	for _, dest := range conf.Dests() {
 		if dest.Match(buf) {
@@ -122,6 +123,7 @@ func (route *SendAllMatch) Dispatch(buf []byte) {
 
 func (route *SendFirstMatch) Dispatch(buf []byte) {
 	conf := route.config.Load().(Config)
+	verifPoint("sendfirstmatch-after-load")
 
 	for _, dest := range conf.Dests() {
 		if dest.Match(buf) {
@@ -135,6 +137,7 @@ func (route *SendFirstMatch) Dispatch(buf []byte) {
 
 func (route *ConsistentHashing) Dispatch(buf []byte) {
 	conf := route.config.Load().(consistentHashingConfig)
+	verifPoint("consistenthashing-after-load")
 	if pos := bytes.IndexByte(buf, ' '); pos > 0 {
 		name := buf[0:pos]
 		dest := conf.Dests()[conf.Hasher.GetDestinationIndex(name)]
